@@ -489,6 +489,18 @@ class Network(BaseModel):  # pylint: disable=too-many-public-methods
             self.graph.set_node_obj(
                 ep_name, Endpoint(mgr_ports=mgr_ports, sbr_ports=sbr_ports, **ep.__dict__)
             )
+        # There is one AXI configuration (and one set of chimney types) per kind and direction:
+        # the protocols that share it need the same ID width as well
+        id_widths = {}
+        for prot in self.protocols:
+            if prot.direction is not None:
+                kind = prot.type if self.network_type == "narrow-wide" else None
+                id_widths.setdefault((kind, prot.direction), set()).add(prot.id_width)
+        for (kind, direction), widths in id_widths.items():
+            if len(widths) != 1:
+                raise ValueError(
+                    f"All {kind + ' ' if kind else ''}{direction} protocols "
+                    "must have the same ID width")
 
     def compile_nis(self):
         """Compile the endpoints in the network."""
